@@ -3,7 +3,7 @@
    sequence of API calls per thread, both _preferWriters settings, timeouts firing at any decision). *)
 From Coq Require Import List Arith Bool.
 Import ListNotations.
-From Muscle Require Import Conc.RwMutexModel Conc.RwMutexProofs Conc.RwMutexInv Conc.RwMutexThms Conc.RwMutexLive Conc.RwMutexExtras Conc.RwMutexCheck Conc.RwMutexProgress.
+From Muscle Require Import Conc.RwMutexModel Conc.RwMutexProofs Conc.RwMutexInv Conc.RwMutexThms Conc.RwMutexLive Conc.RwMutexExtras Conc.RwMutexCheck Conc.RwMutexProgress Conc.RwMutexTrace Conc.RwMutexVariant Conc.RwMutexFair.
 
 (* The inductive invariant: read mode / write mode of the table + every thread's code position agrees with the tables. *)
 Theorem C18_invariant : forall pref s, reachable pref s -> inv s.
@@ -162,6 +162,21 @@ Theorem C18_rw_free_lock_progress : forall pref s, reachable pref s -> g_exec (s
 Proof. exact free_lock_progress. Qed.
 Print Assumptions C18_rw_free_lock_progress.
 
+(* liveness of the hand-off under weak fairness.  [fair_run pref sigma lam]: sigma is an infinite run of the LTS (lam i is the
+   label of its i-th transition; threads may start calls at any time, the environment may stutter) on which no thread's next
+   transition stays enabled forever without being taken.  On every such run, whenever the lock is free and somebody waits,
+   the waiter t the hand-off favours eventually holds the lock, unless somebody else takes the lock first (then the lock is
+   held again and "every holder eventually releases" brings us back here) or t's own timeout had fired and t leaves the queue.
+   Unconditional "every waiter eventually acquires" is false by design: without writer preference a stream of readers can
+   starve writers, with it a stream of writers can starve readers. *)
+Theorem C18_rw_fair_handoff : forall pref sigma lam, fair_run pref sigma lam -> forall i,
+  g_exec (s_g (sigma i)) = [] -> (g_wr (s_g (sigma i)) <> [] \/ g_ww (s_g (sigma i)) <> []) ->
+  exists t j, i <= j /\
+    ((memk t (g_ww (s_g (sigma i))) = true /\ (g_exec (s_g (sigma j)) <> [] \/ memk t (g_ww (s_g (sigma j))) = false)) \/
+     (memk t (g_wr (s_g (sigma i))) = true /\ (g_exec (s_g (sigma j)) <> [] \/ memk t (g_wr (s_g (sigma j))) = false))).
+Proof. exact fair_handoff. Qed.
+Print Assumptions C18_rw_fair_handoff.
+
 (* the model's lists are faithful images of the Hashtables: no thread appears twice in a table *)
 Theorem C18_rw_tables_nodup : forall pref s, reachable pref s -> nodup (s_g s).
 Proof. exact nodup_reachable. Qed.
@@ -183,12 +198,30 @@ Theorem C18_rw_check_complete : forall pref s tids, reachable pref s ->
 Proof. exact check_state_complete. Qed.
 Print Assumptions C18_rw_check_complete.
 
+(* rw_counts on the observable trace only (no ghost counters): [tally_of t tr] is computed from the labels and outputs of an
+   execution -- the calls thread t began and the statuses they returned --; whenever t is outside a call, its table entry is
+   exactly (#ok LockReadOnly - #ok UnlockReadOnly, #ok LockReadWrite - #ok UnlockReadWrite) and it is in no waiting table *)
+Theorem C18_rw_counts_trace : forall pref tr s, exec_from pref sys0 tr s -> forall t, t_cur (tally_of t tr) = None ->
+  find t (g_exec (s_g s)) = mk_ent (t_ro (tally_of t tr)) (t_rw (tally_of t tr)) /\
+  memk t (g_wr (s_g s)) = false /\ memk t (g_ww (s_g s)) = false.
+Proof. exact counts_trace. Qed.
+Print Assumptions C18_rw_counts_trace.
+
 (* known finding F22, stated in the model: a TIMED LockReadWrite() on the upgrade path can be parked where no timeout can fire *)
 Theorem C18_timed_upgrade_refuted : forall pref,
   exists s, reachable pref s /\ l_op (s_l s 0) = Some (OLockRW Timed) /\ l_act (s_l s 0) = AParkRO Never /\
             step pref 0 CTimeout (s_g s) (s_l s 0) = None /\ step pref 0 CRun (s_g s) (s_l s 0) = None.
 Proof. exact timed_upgrade_deadline_refuted. Qed.
 Print Assumptions C18_timed_upgrade_refuted.
+
+(* the "natural repair" of F22 -- letting the restoring re-lock honour the caller's deadline -- is wrong: in that variant
+   (RwMutexVariant.v) a failed timed upgrade returns holding NO lock although its completed calls entitle it to a read lock,
+   while another thread writes (seeded change C18-upgrade-relock-uses-expired-deadline; corpus/C18.txt has the replay) *)
+Theorem C18_relock_with_deadline_refuted : forall pref,
+  exists s, reachableV pref s /\ l_act (s_l s 0) = AIdle /\ l_hro (s_l s 0) = 1 /\ find 0 (g_exec (s_g s)) = None /\
+            find 0 (g_exec (s_g s)) <> exp_ent (s_l s 0) /\ find 1 (g_exec (s_g s)) = Some (mkEnt 1 1).
+Proof. exact relock_with_deadline_refuted. Qed.
+Print Assumptions C18_relock_with_deadline_refuted.
 
 (* ---- non-vacuity: reachable states that satisfy the premises above ---- *)
 
@@ -283,3 +316,17 @@ Proof.
   - exists s. split; [eapply run_reachable; [apply reach_init|exact E]|]. vm_compute in E. inversion E; subst. vm_compute. auto.
   - vm_compute in E. discriminate.
 Qed.
+
+(* an execution with its observable trace: thread 0 ends outside any call with tally (1 read, 0 write) *)
+Example C18_ex_trace :
+  exists tr s, exec_from true sys0 tr s /\ t_cur (tally_of 0 tr) = None /\ t_ro (tally_of 0 tr) = 1 /\ t_rw (tally_of 0 tr) = 0 /\ length tr = 8.
+Proof.
+  destruct (runo true [B 0 (OLockRO Never); R 0; B 0 (OLockRO Try); R 0; B 0 OUnlockRO; R 0; B 0 OUnlockRW; R 0] [] sys0) as [[tr s]|] eqn:E.
+  - exists tr, s. split; [eapply runo_exec; [apply exec_nil|exact E]|]. vm_compute in E. inversion E; subst. vm_compute. auto.
+  - vm_compute in E. discriminate.
+Qed.
+
+(* fair runs exist (the trivial one; finite executions extend to fair runs by letting the environment stutter once no thread
+   has an enabled transition) *)
+Example C18_ex_fair_run : forall pref, fair_run pref (fun _ => sys0) (fun _ => LEnv []).
+Proof. exact fair_run_exists. Qed.
